@@ -35,13 +35,11 @@ SPEC = {
           domain="lexer vs reference lexer (maximal munch, lookahead restrictions, string/escape/block-string rules) on %r ++ [b], b = every ASCII SourceCharacter (solver)" % pre,
           bound="input = %d concrete bytes + 1 symbolic byte" % len(pre.encode())) for name, pre in _PREFIXES["thorough"]
     ] + [
-        H("c03_name_then_latin1_char", functions=F_LEX, tiers=("thorough",), heavy=True, timeout=3000,
-          domain="lexer vs reference on 'a' followed by every character U+0080..U+00BF (lead byte concrete, continuation byte symbolic)",
-          bound="input = 'a' + one 2-byte character"),
         H("c03_twin_must_fail", functions=F_LEX, expect="twin", heavy=True, domain="vacuity twin", bound="-"),
     ],
     "stubs": ["alloc::fmt::format -> empty String (error messages are not the subject; error data and indices stay real)",
-              "core::unicode::unicode_data::{n, alphabetic}::lookup -> exact values on U+0080..U+00BF (c03_name_then_latin1_char only; unchanged code never calls them)"],
+              "core::unicode::unicode_data::{n, alphabetic}::lookup -> under-approximation that is exact on a handful of known characters "
+              "(c03_char_classes only; unchanged code never calls them)"],
     "assumptions": [
         "reference = the October 2021 lexical grammar's character classes and, for a one-character input, the token/error the grammar "
         "assigns to that character followed by EOF (harness/parser/lexer.rs); for the prefix harnesses a reference lexer "
